@@ -69,6 +69,11 @@ fn run_seq_grow(reader: bool, size: u16, chunk: usize, src: &[u8], src_path: &Pa
     for (i, op) in ops.iter().enumerate() {
         let step = catch_unwind(AssertUnwindSafe(|| -> Result<(), String> {
             match *op {
+                Op::Fill if !reader => {
+                    // the handle of a receiving window cannot be read: whatever fill() returns, it must not change
+                    // what is buffered (the comparison with the model below sees a phantom piece)
+                    let _ = win.fill();
+                }
                 Op::Fill => {
                     let r = win.fill().map_err(|e| format!("fill failed: {e}"))?;
                     // model
@@ -249,7 +254,7 @@ pub fn c18(thorough: bool, miri: bool, seed: u64, threads: usize) -> Json {
                 } else if i < cfgs.len() + 6 {
                     // four window sizes with 4-byte pieces, then sector- and page-sized pieces
                     let (size, wchunk) = [(1u16, 4usize), (2, 4), (3, 4), (4, 4), (2, 512), (3, 4096)][i - cfgs.len()];
-                    let alphabet = [Op::Add(wchunk), Op::Add(wchunk - 1), Op::Add(0), Op::Remove(1), Op::RemoveRel(1), Op::Empty];
+                    let alphabet = [Op::Add(wchunk), Op::Add(wchunk - 1), Op::Add(0), Op::Remove(1), if size <= 2 { Op::Fill } else { Op::RemoveRel(1) }, Op::Empty];
                     for len in 1..=maxlen + 1 {
                         let total_seq = alphabet.len().pow(len as u32);
                         for code in 0..total_seq {
@@ -313,7 +318,7 @@ pub fn c18(thorough: bool, miri: bool, seed: u64, threads: usize) -> Json {
                                     (true, 7) => Op::Remove(r.below(size as u64 + 2) as u16),
                                     (true, _) => Op::Add(chunk.min(64)),
                                     (false, 0..=5) => Op::Add(if r.chance(800) { chunk.min(9000) } else { r.below(chunk.min(9000) as u64 + 1) as usize }),
-                                    (false, 6) => Op::Remove(r.below(3) as u16),
+                                    (false, 6) => if r.chance(300) { Op::Fill } else { Op::Remove(r.below(3) as u16) },
                                     (false, 7) => Op::RemoveRel(r.below(2) as u16),
                                     (false, _) => Op::Empty,
                                 };
